@@ -132,7 +132,9 @@ def schema_lib(tag, exp_text, cfg="plain", bdir=None):
     """exp2cxx + compile of a model schema, cached by (schema text, exp2cxx binary, core headers, cfg).
     Returns dict(dir, objs, gen_rc, gen_err).  Raises BuildFailure if generated code does not compile."""
     bdir = bdir or core(cfg)
-    key = sha(exp_text, file_sha(os.path.join(bdir, "bin", "exp2cxx")), _hdr_digest(), cfg)[:20]
+    # exp2cxx is linked dynamically against libexpress: both decide what is generated
+    gen_id = sha(file_sha(os.path.join(bdir, "bin", "exp2cxx")), file_sha(os.path.realpath(os.path.join(bdir, "lib", "libexpress.so"))))
+    key = sha(exp_text, gen_id, _hdr_digest(), cfg)[:20]
     d = os.path.join(WORK, "schemas", "%s-%s-%s" % (tag, cfg, key))
     ok = os.path.join(d, "OK")
     lk = _lock("schema-" + tag + "-" + cfg)
